@@ -26,6 +26,7 @@ ASSUMPTIONS = ["RFC 9380 model vf/model/h2c.py, anchored by the RFC J.9.1/J.10.1
                "and A', B', Z are frozen literals (vf/model/isoconst.py) validated by those vectors and by "
                "the homomorphism self-checks", "hashlib digests are correct (shared by model and library)"]
 ENGINE = "hypothesis"
+TECHNIQUE = ("differential property-based testing (Hypothesis) against a straight-line RFC 9380 model anchored by the RFC vectors")
 _REQ = ["map:G1:branch=x1", "map:G1:branch=x2", "map:G2:branch=x1", "map:G2:branch=x2", "map:G1:exceptional",
         "map:G2:exceptional", "map:G2:u_re=0", "map:G2:u_im=0", "map:G1:sgn0(u)=1", "map:G2:sgn0(u)=1",
         "h2c:G1:dst_len=255", "h2c:G2:dst_len=255", "h2c:G1:dst_len=0", "h2c:G2:dst_len=0",
